@@ -21,6 +21,7 @@ type ioCase struct {
 	V     json.RawMessage `json:"v"`
 	Top   string          `json:"top"`   // "value" (default) or "ptr": Marshal(v) or Marshal(&v)
 	Modes []string        `json:"modes"` // subset of simple, ref
+	Dump  bool            `json:"dump,omitempty"`
 }
 
 type modeObs struct {
@@ -30,6 +31,7 @@ type modeObs struct {
 	RT       string `json:"rt"` // "" = equal; otherwise the first difference
 	RTErr    string `json:"rt_err,omitempty"`
 	RTPanic  string `json:"rt_panic,omitempty"`
+	DecSexp  string `json:"dec_sexp,omitempty"` // the decoded value described like the input (only with "dump")
 }
 
 type ioObs struct {
@@ -105,6 +107,13 @@ func runCase(line []byte, out *json.Encoder) error {
 					mo.RTErr = e.Error()
 				}
 			})
+			if mo.RTPanic == "" && c.Dump {
+				safely(func() {
+					dv := reflect.New(ifaceType).Elem()
+					dv.Set(dst.Elem())
+					mo.DecSexp, _, _ = describe(dv)
+				})
+			}
 			if mo.RTPanic == "" {
 				p := safely(func() {
 					ctx := &eqctx{visited: map[[2]uintptr]bool{}}
